@@ -89,13 +89,18 @@ def structured_configs(rng, n, fail_mode="none"):
         [D(1), T(1), T(1), T(1), T(2, 3, 4)],                             # fan-out / fan-in
         [T(), T(1), T(1), T(2), T(3), T(4, 5), T(2, 6)],                  # shared intermediate
         [T(), T(), T(1, 2), T(1, 2), T(3), T(4), T(5, 6), T(3, 7)],       # shuffle-like
+        [T(), T(), T(), T(), T(), T(), T(1, 2, 3, 4, 5, 6)],              # wide fan-in: many tasks ready at once
+        [T(), T(), T(), T(), T(), T(1), T(2), T(3, 4, 5)],                # wide, two levels
+        [D(1), T(1), T(1), T(1), T(1), T(1), T(1), T(2, 3), T(4, 5, 6, 7)],  # wide fan-out from data
     ]
     for _ in range(n):
         g = rng.choice(shapes)
         m = len(g)
         ks = rng.sample(range(1, m + 1), rng.randint(1, 3))
+        if rng.random() < 0.5 and m not in ks:
+            ks.append(m)                      # the sink: makes the whole (wide) graph needed
         req = {"x": [{"k": k} for k in ks]} if rng.random() < 0.8 else {"k": m}
-        cfg = {"n": m, "nodes": g, "req": req, "nw": rng.choice([1, 2, 3, 4]), "cs": rng.choice([1, 2, 3, -1]), "fails": [],
+        cfg = {"n": m, "nodes": g, "req": req, "nw": rng.choice([1, 2, 3, 3, 4]), "cs": rng.choice([1, 2, 2, 3, -1]), "fails": [],
                "pack": rng.random() < 0.7}
         tasks = sorted(k for k in S.needed(cfg) if g[k - 1]["kind"] == "task")
         if not tasks and fail_mode == "always":
@@ -260,6 +265,7 @@ def replay_all(ctx, prop, cfgs, behaviours, styles=("legacy", "taskspec")):
 
 _POOL = None
 _RID = 0
+HANG_TIMEOUT = 30.0       # seconds a real scheduler call may take before it is reported as a hang
 
 
 def _mp_pool(n=3):
@@ -297,33 +303,54 @@ def record_real_run(cfg, mode, seed, fail_kind="exc"):
     rec = S.Recorder(sink=events, lock=lock)
     g = S.real_graph(cfg, "legacy" if seed % 2 else "taskspec", fail_kind, rid=rid)
     req = S.real_request(cfg["req"])
-    ret, raised, exc_type, exc_msg = None, 0, "", ""
     cb = Callback(start=rec.start, pretask=rec.pretask, posttask=rec.posttask, finish=rec.finish)
     nw = cfg["nw"]
+    box = {"ret": None, "raised": 0, "exc_type": "", "exc_msg": "", "nw": nw, "done": False}
+    expected = S.FAIL_KINDS[fail_kind]
+
+    def call():
+        try:
+            with cb:
+                if mode == "threaded":
+                    out = dask.threaded.get(g, req, num_workers=nw, chunksize=cfg["cs"])
+                elif mode == "tpool":
+                    # a multiprocessing.pool-style pool handed to the threaded scheduler
+                    import multiprocessing.pool
+                    tp = multiprocessing.pool.ThreadPool(nw)
+                    try:
+                        out = dask.threaded.get(g, req, pool=tp, chunksize=cfg["cs"])
+                    finally:
+                        tp.terminate()
+                elif mode == "executor":
+                    with ThreadPoolExecutor(nw) as ex:
+                        out = L.get_async(ex.submit, nw, g, req, chunksize=cfg["cs"])
+                elif mode == "sync":
+                    out = L.get_sync(g, req, chunksize=cfg["cs"])
+                elif mode == "mp":
+                    pool = _mp_pool()
+                    box["nw"] = pool._max_workers
+                    out = dask.multiprocessing.get(g, req, pool=pool, chunksize=cfg["cs"], optimize_graph=False)
+                else:
+                    raise ValueError(mode)
+            box["ret"] = S.fmt_result(cfg["req"], out)
+        except BaseException as e:  # noqa: BLE001
+            box["exc_msg"] = str(e)[:200]
+            m = str(e).split("\n")[0].strip()
+            box["raised"] = int(m[6:]) if m.startswith("boom k") and m[6:].isdigit() else -1
+            same = type(e) is expected or (mode == "mp" and isinstance(e, expected))
+            # the statement allows a subclass of the original type for the multiprocessing scheduler only
+            box["exc_type"] = expected.__name__ if same else "not-" + expected.__name__ + ":" + type(e).__name__
+        finally:
+            box["done"] = True
+
+    import threading
+    th = threading.Thread(target=call, daemon=True)
+    th.start()
+    th.join(HANG_TIMEOUT)
+    hang = not box["done"]
+    ret, raised, exc_type, exc_msg, nw = box["ret"], box["raised"], box["exc_type"], box["exc_msg"], box["nw"]
     try:
-        with cb:
-            if mode == "threaded":
-                out = dask.threaded.get(g, req, num_workers=nw, chunksize=cfg["cs"])
-            elif mode == "executor":
-                with ThreadPoolExecutor(nw) as ex:
-                    out = L.get_async(ex.submit, nw, g, req, chunksize=cfg["cs"])
-            elif mode == "sync":
-                out = L.get_sync(g, req, chunksize=cfg["cs"])
-            elif mode == "mp":
-                pool = _mp_pool()
-                nw = pool._max_workers
-                out = dask.multiprocessing.get(g, req, pool=pool, chunksize=cfg["cs"], optimize_graph=False)
-            else:
-                raise ValueError(mode)
-        ret = S.fmt_result(cfg["req"], out)
-    except BaseException as e:  # noqa: BLE001
-        exc_type = type(e).__name__
-        exc_msg = str(e)[:200]
-        m = str(e).split("\n")[0].strip()
-        raised = int(m[6:]) if m.startswith("boom k") and m[6:].isdigit() else -1
-        expected = S.FAIL_KINDS[fail_kind]
-        if mode == "mp" and isinstance(e, expected):
-            exc_type = expected.__name__                 # a subclass of the original type is allowed
+        pass
     finally:
         with lock:
             S._RUNS.pop(rid, None)       # late worker threads of this run log nowhere from now on
@@ -333,11 +360,11 @@ def record_real_run(cfg, mode, seed, fail_kind="exc"):
         pos = max((i for i, e in enumerate(evs) if e["e"] == "finish"), default=len(evs))
         evs.insert(pos, {"e": "fail", "k": raised})
     c = dict(cfg)
-    c["pack"] = mode in ("threaded", "mp")        # these schedulers pack exceptions; get_sync / raw executors re-raise
+    c["pack"] = mode in ("threaded", "mp", "tpool")        # these schedulers pack exceptions; get_sync / raw executors re-raise
     c["nw"] = 1 if mode == "sync" else nw
     return {"cfg": c, "events": evs, "ret": ret if ret is not None else "", "raised": raised if raised else 0,
             "nfinish": rec.nfinish, "exc_type": exc_type, "exc_msg": exc_msg, "mode": mode, "execlog": mode != "mp",
-            "expected_exc": S.FAIL_KINDS[fail_kind].__name__ if cfg.get("fails") else ""}
+            "expected_exc": S.FAIL_KINDS[fail_kind].__name__ if cfg.get("fails") else "", "hang": hang}
 
 
 def validate_traces(ctx, prop, recs):
@@ -398,13 +425,13 @@ def run_property(ctx, prop):
     # 3. code -> spec
     tr = prepare(ctx, universe(rng, 4, ctx.pick(150, 1500), fm) + structured_configs(rng, ctx.pick(90, 1500), fm))
     recs = []
-    kinds = ["exc", "base", "value", "unpicklable"]
-    modes = ["threaded", "threaded", "executor", "sync"]
+    kinds = ["exc", "base", "value", "unpicklable", "twin_a", "twin_b", "base"]
+    modes = ["threaded", "threaded", "executor", "sync", "tpool"]
     for i, c in enumerate(tr):
-        recs.append(record_real_run(c, modes[i % 4], ctx.seed * 100003 + i, kinds[i % 4]))
+        recs.append(record_real_run(c, modes[i % 5], ctx.seed * 100003 + i, kinds[i % 7]))
     try:
-        for i, c in enumerate(tr[:ctx.pick(12, 150)]):
-            recs.append(record_real_run(c, "mp", i, ["exc", "value", "base", "unpicklable"][i % 4]))
+        for i, c in enumerate(tr[:ctx.pick(14, 150)]):
+            recs.append(record_real_run(c, "mp", i, ["exc", "twin_a", "value", "twin_b", "base", "unpicklable"][i % 6]))
     finally:
         close_pool()
     validate_traces(ctx, prop, recs)
